@@ -256,6 +256,11 @@ func (e *Enc) encodeCall1(c *ssa.CallCommon, instr ssa.Instruction, pos token.Po
 		e.effectObligation(name, pos)
 	}
 	fc := e.p.Contracts.Funcs[name]
+	if kind == "functype" || kind == "dynamic" {
+		if dn, dfc := e.p.dispatchContractFor(c.Value.Type()); dfc != nil {
+			return e.applyDispatch(dn, dfc, c, instr, sig, args, argTypes, pos)
+		}
+	}
 	if fc == nil && kind == "dynamic" {
 		e.note("call through function value without protocol contract")
 	}
@@ -1280,6 +1285,7 @@ func (e *Enc) loopHeader(b *ssa.BasicBlock, li *loopInfo, preds []*ssa.BasicBloc
 		e.assumeLoadedInv(e.termOf(phi), phi.Type())
 	}
 	e.reassumeInvariants()
+	e.cur.heap[fmt.Sprintf("ent|%d", li.index)] = True
 	li.headerState = e.cur.clone()
 	// variants
 	li.decAtHeader = nil
@@ -1351,6 +1357,24 @@ func (e *Enc) backEdges(b *ssa.BasicBlock) {
 				continue
 			}
 			e.candCheck(li, cd, "preserve", cd.mk(e, bind, e.cur))
+		}
+		if e.fc != nil && len(e.fc.IterEnd[li.index]) > 0 && li.headerState != nil {
+			// iterend: what one iteration has done. Loop variables denote their values in this iteration,
+			// old(...) the state at the start of the iteration.
+			ienv := e.loopEnv(li, e.cur, nil)
+			ienv.old = li.headerState
+			for _, cl := range e.fc.IterEnd[li.index] {
+				t, err := ienv.Eval(cl.Expr)
+				label := cl.Label
+				if label == "" {
+					label = "i" + itoa(cl.Line)
+				}
+				if err != nil {
+					e.contractError(e.name, cl, err, pos)
+					continue
+				}
+				e.obligeNamed(fmt.Sprintf("%s/iterend/loop%d/%s@%d", e.name, li.index, label, e.backOrdinal(li, b)), "iterend", label, pos, t.T, cl.Props, "iterend "+cl.Src)
+			}
 		}
 		if e.fc != nil {
 			for i, cl := range e.fc.Dec[li.index] {
